@@ -353,8 +353,8 @@ def gen_cases(rng, graphs, n, profile, prefix='w'):
             outcomes=profile.get('outcomes', ('pass',)),
             tests_per_layer=profile.get('tests_per_layer', (1, 2)),
             unit_tests=profile.get('unit_tests', (0, 1)),
-            names=worlds.permuted_names(rng, g['n'])
-            if profile.get('permute_names') else None)
+            names=(worlds.dotted_names(rng, g['n']) if rng.random() < profile.get('dotted', 0.0)
+                   else worlds.permuted_names(rng, g['n']) if profile.get('permute_names') else None))
         o = profile['opts'](rng) if 'opts' in profile else {}
         mode = 'cli' if needs_cli(w, o) else profile.get('mode', 'inproc')
         cases.append({'id': w['id'], 'world': w, 'o': o, 'mode': mode})
